@@ -235,7 +235,18 @@ func c16Exec(c *core.Ctx, cs c16Case) {
 	nonEmpty := 0
 	for _, pt := range cs.Patterns {
 		p := strings.ReplaceAll(pt, "<ROOT>", root)
+		// <ROOTW1..3>: the tree's absolute path with its FIRST component written as a
+		// pattern (?mp, [t]mp, tmp*): the only foreign directory this reads is /
+		if first, rest, ok := strings.Cut(strings.TrimPrefix(root, "/"), "/"); ok && first != "" && strings.Contains(p, "<ROOTW") {
+			_, sz := utf8.DecodeRuneInString(first)
+			p = strings.ReplaceAll(p, "<ROOTW1>", "/?"+first[sz:]+"/"+rest)
+			p = strings.ReplaceAll(p, "<ROOTW2>", "/["+first[:sz]+"]"+first[sz:]+"/"+rest)
+			p = strings.ReplaceAll(p, "<ROOTW3>", "/"+first+"*/"+rest)
+		}
 		want, skip := refGlob(p)
+		if pt == "/*" || pt == "/*/" || pt == "/.*" {
+			skip = "the root directory is not ours to model (only the model-free clauses apply)"
+		}
 		got, err := pattern.Glob(p)
 		c.Eval(1)
 		key := fmt.Sprintf("%q in %s", pt, treeStr(cs.Tree))
@@ -306,6 +317,9 @@ func treeStr(t []c16Entry) string {
 
 func c16Class(p string) string {
 	var k []string
+	if strings.HasPrefix(p, "<ROOTW") || strings.HasPrefix(p, "/*") || p == "/.*" {
+		k = append(k, "absolute-wildcard-first")
+	}
 	if strings.HasPrefix(p, "<ROOT>") {
 		k = append(k, "absolute")
 	}
@@ -402,7 +416,7 @@ func c16RandPatterns(r *rand.Rand, tree []c16Entry, n int) []string {
 			paths = append(paths, e.Path+"/inner")
 		}
 	}
-	fixed := []string{"*", ".*", "*/", "*/*", "*/.*", ".*/", "./*", "*//", "*//*", "?", "??*", "[a-b]*", "*.go", "<ROOT>/*", "<ROOT>/*/", "<ROOT>/.*", "<ROOT>//*", "a", "a/", "nope", "nope/*", "*/nope", ".", "..", "../*", "./", "*/../*", `\*`, `*\/`, `*\/*`, "[!.]*", `\.*`, "*/*/", "*/*/*", "a//", "nope//", "*/a//", "<ROOT>/nope///", "a.go//", "*/a.go//", `*\`, `a\`, `a/\`, `\`, `?\`, `*/\`, `\<ROOT>/*`, `\<ROOT>\/*`, `\<ROOT>/a`, `\<ROOT>//.*`}
+	fixed := []string{"*", ".*", "*/", "*/*", "*/.*", ".*/", "./*", "*//", "*//*", "?", "??*", "[a-b]*", "*.go", "<ROOT>/*", "<ROOT>/*/", "<ROOT>/.*", "<ROOT>//*", "a", "a/", "nope", "nope/*", "*/nope", ".", "..", "../*", "./", "*/../*", `\*`, `*\/`, `*\/*`, "[!.]*", `\.*`, "*/*/", "*/*/*", "a//", "nope//", "*/a//", "<ROOT>/nope///", "a.go//", "*/a.go//", `*\`, `a\`, `a/\`, `\`, `?\`, `*/\`, `\<ROOT>/*`, `\<ROOT>\/*`, `\<ROOT>/a`, `\<ROOT>//.*`, "<ROOTW1>/*", "<ROOTW2>/a", "<ROOTW3>/*/", "<ROOTW1>/.*", "<ROOTW3>//*", "<ROOTW2>/*/*", "/*", "/*/", "/.*"}
 	out := append([]string(nil), fixed...)
 	for len(out) < n {
 		p := pick(r, paths)
